@@ -12,7 +12,7 @@ Extra keys used only by harness/c02.py:
                  where the code is known to deviate (ramlb ignores s; iso ignores nontrivial)
   finding      : function p -> (site, cls) or None; the class of inputs on which as_is/spec differ
   count        : function p -> documented number of satisfying assignments of a satisfiable
-                 instance, or None (a TEST by enumeration, not a theorem)
+                 instance, or None (a TEST by enumeration; for tseitin it is also a theorem, Prop_C02.C02_tseitin_model_count)
   small        : function p -> bool, instance is small enough for full enumeration
 
 The oracles decode_ok / exists / count are written from the documentation of the families
